@@ -665,9 +665,78 @@ def check_tokens(ctx, prog):
     return decided
 
 
+def check_model(ctx, prog):
+    """C01.model: the non-mutating and reordering members of Array agree with the reference sequence.  Each member of a table is
+    interpreted (tokensim / scansim: the storage as slots, arrays built by the member as bounds-checked buffers, helper
+    templates such as quicksort and swap interpreted from their bodies) on every array of 0..4 elements over a small value
+    set and every argument in range; the result must be the reference, with no access outside the storage."""
+    import tokensim, scansim, itertools
+    table = [
+        ('slice', '(int,int)const', lambda v: [{0: i, 1: j} for i in range(len(v) + 1) for j in range(i, len(v) + 1) if not (j == 0 and i == 0 and False)],
+         lambda v, a: v[a[0]:(a[1] if a[1] != 0 else len(v))]),
+        ('reversed', '()const', lambda v: [{}], lambda v, a: v[::-1]),
+        ('indexOf', None, lambda v: [{0: x, 1: j} for x in (1, 2, 9) for j in range(len(v) + 1)], lambda v, a: next((k for k in range(a[1], len(v)) if v[k] == a[0]), -1)),
+        ('contains', None, lambda v: [{0: x} for x in (1, 2, 9)], lambda v, a: int(a[0] in v)),
+        ('sort', '()', lambda v: [{}], lambda v, a: sorted(v)),
+    ]
+    n = 0
+    for name, sig, gen, ref in table:
+        fs = [g for g in prog.functions if g.get('clsp') == 'asl::Array' and g['n'] == name and g['q'].startswith('asl::Array<int>::') and g.get('body') and (sig is None or g['sig'] == sig)]
+        if not fs:
+            continue
+        f = fs[0]
+        role = '%s%s:agrees with the reference sequence' % (name, f.get('sig') or '')
+        bad = und = None
+        runs = 0
+        for L in range(0, 5):
+            for vals in itertools.product((1, 2, 3), repeat=L):
+                vals = list(vals)
+                for args in gen(vals):
+                    w = tokensim.World(vals, max(L, 3), 4)
+                    r = tokensim.ArrayRun(prog, f, w, objects=True)
+                    for k, v_ in args.items():
+                        r.vars[f['params'][k]['id']] = v_
+                    runs += 1
+                    label = '%s.%s(%s)' % (vals, name, ', '.join(str(args[k]) for k in sorted(args)))
+                    try:
+                        ret = r.run()
+                    except tokensim.Broken as b_:
+                        bad = '%s %s' % (label, b_)
+                        break
+                    except scansim.OOB as o:
+                        bad = '%s accesses storage outside the array: %s' % (label, o)
+                        break
+                    except (scansim.Unsupported, TypeError, KeyError, IndexError, AttributeError) as u:
+                        und = '%s: %s' % (label, u)
+                        break
+                    if isinstance(ret, tuple) and ret[0] == 'P' and isinstance(ret[1], tuple) and ret[1][0] == 'O':
+                        got = [tokensim.value_of(x) for x in w.bufs[ret[1]]]
+                    elif ret == ('THIS',):
+                        got = [tokensim.value_of(x) for x in w.bufs['A'][:w.recs['hdr']['n']]]
+                    else:
+                        got = tokensim.value_of(ret)
+                    want = ref(vals, args)
+                    if got != want:
+                        bad = '%s is %s, the reference sequence gives %s' % (label, got, want)
+                        break
+                if bad or und:
+                    break
+            if bad or und:
+                break
+        ctx.evaluations += runs
+        if und:
+            ctx.info.setdefault('array_model_not_interpreted', []).append(und[:160])
+            continue
+        n += 1
+        ctx.analysed(f)
+        ctx.check(bad is None, 'C01.model', f['pq'], role, fwhere(f), 'interpreted on %d (array, argument) combinations' % runs, 'Array::%s' % bad)
+    return n
+
+
 def check_lifetime(ctx, prog):
     n = 0
     decided = check_tokens(ctx, prog)
+    check_model(ctx, prog)
     for f in prog.functions:
         if f.get('clsp') != 'asl::Array' or f.get('implicit') or not f.get('body'):
             continue
